@@ -30,6 +30,9 @@ pub enum LayoutKind {
     Phonetic,
     Probhat,
     Synthetic,
+    /// A user's customised copy of Probhat.json in another directory: the same file name,
+    /// a few keys swapped (written to .cache/layouts-alt/Probhat.json at start-up).
+    ProbhatAlt,
 }
 
 #[derive(Clone, Copy, PartialEq, Eq, Debug, Serialize, Deserialize, Hash)]
@@ -120,6 +123,7 @@ pub struct Paths {
     pub data_small: String,
     pub data_big: String,
     pub probhat: String,
+    pub probhat_alt: String,
     pub synthetic: String,
     pub header: String,
 }
@@ -133,6 +137,7 @@ impl Paths {
             data_small: format!("{}/.cache/data-small", verif),
             data_big: format!("{}/.cache/data-big", verif),
             probhat: format!("{}/data/Probhat.json", repo),
+            probhat_alt: format!("{}/.cache/layouts-alt/Probhat.json", verif),
             synthetic: format!("{}/layouts/Synthetic.json", verif),
             header: format!("{}/include/riti.h", repo),
             repo,
@@ -153,6 +158,7 @@ impl CfgHandle {
             let layout = match spec.layout {
                 LayoutKind::Phonetic => "avro_phonetic".to_string(),
                 LayoutKind::Probhat => paths.probhat.clone(),
+                LayoutKind::ProbhatAlt => paths.probhat_alt.clone(),
                 LayoutKind::Synthetic => paths.synthetic.clone(),
             };
             let c = CString::new(layout.clone()).unwrap();
